@@ -47,6 +47,20 @@ add("F17", ["C05"], "C05.order|concat|compiler::mirgen::Context::eval_expr|Feed|
 add("F18", ["C05"], "C05.accounting|push|compiler::mirgen::Context::eval_expr|x2", "`if` branches: the padding PushStateOffset is not accounted in push_sum and the bookkeeping is not bracketed around the branches: stateful calls of different sizes in the two branches underflow the VM state cursor (panic in pop_pos), WASM keeps running")
 add("F18", ["C05"], "C05.accounting|push|compiler::mirgen::Context::eval_union_match|x2", "`match` arms: same unaccounted padding; findings/repro/F18_match_branches.mmm panics the VM with `attempt to subtract with overflow` in pop_pos while WASM runs")
 
+# ---- C17 -------------------------------------------------------------------------------------------------
+add("F12", ["C17"], "C17.register|arm|GlobalStatement", "module-level `let` is neither mangled nor recorded in visibility_map: `mod m { let secret = 42.0 }` is readable as `secret` from outside (findings/repro/m1.mmm)")
+
+# ---- C09 / C10 -------------------------------------------------------------------------------------------
+add("F14", ["C09"], "C09.names|unregistered|code_match", "`match` inside a quote: translate_staging emits `code_match`, which is never registered: Variable \"code_match\" not found (findings/repro/q1.mmm)")
+
+add("F20", ["C10"], "C10.binders|binder|code_let|compiler::translate_staging::translate_let_pattern", "binders in quoted code keep their source names (code_let): a macro body's `let x` captures the user's `x` (200.0 instead of 101.0 after renaming; findings/repro/h1.mmm, h2.mmm)")
+add("F20", ["C10"], "C10.binders|binder|code_let_tuple|compiler::translate_staging::translate_let_tuple_pattern", "binders in quoted code keep their source names (code_let_tuple): a macro body's `let x` captures the user's `x` (200.0 instead of 101.0 after renaming; findings/repro/h1.mmm, h2.mmm)")
+add("F20", ["C10"], "C10.binders|binder|code_letrec_typed|compiler::translate_staging::translate_code", "binders in quoted code keep their source names (code_letrec_typed): a macro body's `let x` captures the user's `x` (200.0 instead of 101.0 after renaming; findings/repro/h1.mmm, h2.mmm)")
+add("F20", ["C10"], "C10.binders|binder|code_lam1_finish_typed|compiler::translate_staging::translate_code", "binders in quoted code keep their source names (code_lam1_finish_typed): a macro body's `let x` captures the user's `x` (200.0 instead of 101.0 after renaming; findings/repro/h1.mmm, h2.mmm)")
+add("F20", ["C10"], "C10.binders|binder|code_lam_finish_typed|compiler::translate_staging::translate_code", "binders in quoted code keep their source names (code_lam_finish_typed): a macro body's `let x` captures the user's `x` (200.0 instead of 101.0 after renaming; findings/repro/h1.mmm, h2.mmm)")
+add("F20", ["C10"], "C10.binders|binder|code_lam_finish_defaults_typed|compiler::translate_staging::translate_code", "binders in quoted code keep their source names (code_lam_finish_defaults_typed): a macro body's `let x` captures the user's `x` (200.0 instead of 101.0 after renaming; findings/repro/h1.mmm, h2.mmm)")
+add("F20", ["C10"], "C10.binders|binder|code_feed|compiler::translate_staging::translate_code", "binders in quoted code keep their source names (code_feed): a macro body's `let x` captures the user's `x` (200.0 instead of 101.0 after renaming; findings/repro/h1.mmm, h2.mmm)")
+
 
 def main():
     extra = os.path.join(HERE, "tools", "findings_more.py")
